@@ -11,6 +11,7 @@ import (
 	"encoding/json"
 	"fmt"
 	"os"
+	"os/exec"
 	"path/filepath"
 	"regexp"
 	"runtime"
@@ -288,6 +289,10 @@ func (r *Run) Finish(rule string) {
 		"violations":  nviol,
 	}
 	r.mu.Unlock()
+	if out := os.Getenv("VERIF_SHARD_OUT"); out != "" {
+		r.writeShard(out, cov)
+		os.Exit(0)
+	}
 	if p := os.Getenv("VERIF_EVIDENCE"); p != "" && os.Getenv("VERIF_REPLAY") == "" {
 		b, _ := json.MarshalIndent(ev, "", " ")
 		_ = os.MkdirAll(filepath.Dir(p), 0o755)
@@ -405,4 +410,152 @@ func LoadReplay(path string, v interface{}) {
 	if err := json.Unmarshal(w.Case, v); err != nil {
 		Fatalf("replay case: %v", err)
 	}
+}
+
+// ---------------------------------------------------------------- process sharding
+
+type shardViolation struct {
+	Fingerprint string `json:"fp"`
+	What        string `json:"what"`
+	Replay      string `json:"replay"`
+	Count       int    `json:"count"`
+}
+
+type shardResult struct {
+	Evals      int64                  `json:"evals"`
+	Nontrivial int64                  `json:"nontrivial"`
+	Extra      map[string]interface{} `json:"extra"`
+	Violations []shardViolation       `json:"violations"`
+	Caps       []string               `json:"caps"`
+	Samples    []interface{}          `json:"samples"`
+}
+
+// Shard tells a harness which slice of its job list it owns: jobs with
+// index%n == idx. In the parent process (no VERIF_SHARD) child is false.
+func (r *Run) Shard() (idx, n int, child bool) {
+	s := os.Getenv("VERIF_SHARD")
+	if s == "" {
+		return 0, 1, false
+	}
+	fmt.Sscanf(s, "%d/%d", &idx, &n)
+	return idx, n, true
+}
+
+func (r *Run) writeShard(out string, cov map[string]interface{}) {
+	res := shardResult{Evals: atomic.LoadInt64(&r.evals), Nontrivial: int64(len(r.distinct)) + atomic.LoadInt64(&r.nontrivial),
+		Extra: map[string]interface{}{}, Caps: r.capsHit, Samples: r.samples}
+	for k, v := range r.extra {
+		res.Extra[k] = v
+	}
+	for _, fp := range r.order {
+		v := r.viol[fp]
+		res.Violations = append(res.Violations, shardViolation{fp, v.What, v.Replay, v.Count})
+	}
+	b, _ := json.Marshal(res)
+	if err := os.WriteFile(out, b, 0o644); err != nil {
+		Fatalf("write shard result: %v", err)
+	}
+}
+
+// RunShards re-executes the current test binary n times (same arguments,
+// GOMAXPROCS=procs each) with VERIF_SHARD=i/n and merges what the children
+// found and counted into r. Numeric extras are summed; other extras are taken
+// from the first shard that set them. Forced-GC-heavy and goroutine-heavy
+// harnesses scale far better across processes than across threads.
+func (r *Run) RunShards(n, procs int) {
+	dir := os.Getenv("VERIF_SCRATCH")
+	if dir == "" {
+		dir = os.TempDir()
+	}
+	type res struct {
+		i   int
+		err error
+		out []byte
+	}
+	ch := make(chan res, n)
+	for i := 0; i < n; i++ {
+		go func(i int) {
+			cmd := exec.Command(os.Args[0], os.Args[1:]...)
+			cmd.Env = append(os.Environ(), fmt.Sprintf("VERIF_SHARD=%d/%d", i, n),
+				fmt.Sprintf("VERIF_SHARD_OUT=%s/shard-%s-%d.json", dir, r.Prop, i), fmt.Sprintf("GOMAXPROCS=%d", procs),
+				fmt.Sprintf("VERIF_WORKERS=%d", procs), fmt.Sprintf("VERIF_SCRATCH=%s/shard%d", dir, i))
+			os.MkdirAll(fmt.Sprintf("%s/shard%d", dir, i), 0o755)
+			out, err := cmd.CombinedOutput()
+			ch <- res{i, err, out}
+		}(i)
+	}
+	for k := 0; k < n; k++ {
+		x := <-ch
+		if x.err != nil {
+			tail := string(x.out)
+			if len(tail) > 3000 {
+				tail = tail[len(tail)-3000:]
+			}
+			Fatalf("shard %d/%d failed: %v\n%s", x.i, n, x.err, tail)
+		}
+		b, err := os.ReadFile(fmt.Sprintf("%s/shard-%s-%d.json", dir, r.Prop, x.i))
+		if err != nil {
+			Fatalf("shard %d wrote no result: %v", x.i, err)
+		}
+		var sr shardResult
+		if err := json.Unmarshal(b, &sr); err != nil {
+			Fatalf("shard %d result: %v", x.i, err)
+		}
+		atomic.AddInt64(&r.evals, sr.Evals)
+		atomic.AddInt64(&r.nontrivial, sr.Nontrivial)
+		r.mu.Lock()
+		for k, v := range sr.Extra {
+			if f, ok := v.(float64); ok {
+				old, _ := r.extra[k].(float64)
+				if oi, ok := r.extra[k].(int64); ok {
+					old = float64(oi)
+				}
+				r.extra[k] = old + f
+			} else if l, ok := v.([]interface{}); ok {
+				// lists are merged as sorted sets of their string forms
+				set := map[string]bool{}
+				if ol, ok := r.extra[k].([]string); ok {
+					for _, x := range ol {
+						set[x] = true
+					}
+				}
+				for _, x := range l {
+					set[fmt.Sprint(x)] = true
+				}
+				var u []string
+				for x := range set {
+					u = append(u, x)
+				}
+				sort.Strings(u)
+				r.extra[k] = u
+			} else if _, ok := r.extra[k]; !ok {
+				r.extra[k] = v
+			}
+		}
+		for _, c := range sr.Caps {
+			r.exhaustive = false
+			dup := false
+			for _, o := range r.capsHit {
+				dup = dup || o == c
+			}
+			if !dup {
+				r.capsHit = append(r.capsHit, c)
+			}
+		}
+		for _, s := range sr.Samples {
+			if len(r.samples) < 8 {
+				r.samples = append(r.samples, s)
+			}
+		}
+		for _, v := range sr.Violations {
+			if old, ok := r.viol[v.Fingerprint]; ok {
+				old.Count += v.Count
+				continue
+			}
+			r.viol[v.Fingerprint] = &violation{Fingerprint: v.Fingerprint, What: v.What, Replay: v.Replay, Count: v.Count}
+			r.order = append(r.order, v.Fingerprint)
+		}
+		r.mu.Unlock()
+	}
+	sort.Strings(r.order)
 }
